@@ -7,6 +7,8 @@ import (
 	"io"
 	"strings"
 
+	stdflate "compress/flate"
+
 	fflate "github.com/intel/fastgo/compress/flate"
 	fgzip "github.com/intel/fastgo/compress/gzip"
 	fzlib "github.com/intel/fastgo/compress/zlib"
@@ -23,7 +25,7 @@ func init() {
 		ID:       "C13",
 		Category: "model_checking",
 		Rule: "first life: a stream in {70 KB text, 300 B, a stream ending in a corrupt-input error, a truncated stream, streams cut inside a dynamic header / inside a stored block's length field / inside its payload, a 70 KB stored stream, every stream of the C03 fault catalogue read to its error} x read history in {nothing read, 1 byte, 10 bytes, all but the last byte, to the end/error, exactly 65535 / 65536 bytes (output window full)} x Read size {1 MiB, 7}; then Reset(second source [, dictionary]); " +
-			"second life: every stream of the short corpus, malformed streams whose back-references reach 1, 2, 100 and 32768 bytes before their own start, containers of the same kind, and for zlib every combination {first stream with/without dictionary} x {second with/without}; flate, gzip (also member stepping), zlib; second source plain, a 64-byte bufio, one byte per call, or one byte per call through a 16-byte bufio; " +
+			"second life: every stream of the short corpus, malformed streams whose back-references reach 1, 2, 100 and 32768 bytes before their own start, containers of the same kind, raw streams with a preset dictionary of 20 and of 40000 bytes (only the last 32 KiB count; copies from its end, from 32000 back and from the part out of reach; malformed back-references into and beyond the dictionary) through flate's Reset(src, dict) against NewReaderDict, and for zlib every combination {first stream with/without dictionary} x {second with/without}; flate, gzip (also member stepping), zlib; second source plain, a 64-byte bufio, one byte per call, or one byte per call through a 16-byte bufio; " +
 			"first source plain, or a 64-byte or default-size *bufio.Reader owned by the caller; oracle: bytes and kind of error of the second life identical to a fresh Reader on the same input, and the first source untouched after Reset (no further Read call; the caller still reads from it exactly what was left); non-trivial = the first life decoded at least one byte",
 		Assumptions: []string{"a freshly constructed Reader is the reference model"},
 		Quick:       TierSpec{MaxDev: -1, Shards: 4, ShardDepth: 3, BudgetS: 150},
@@ -180,11 +182,32 @@ func c13Harness(cfg *Cfg) func(x *mc.Exec) {
 	}
 	dictText := []byte("hello world, hello dictionary, hello again and again")
 	zl = append(zl, container{name: "zlib-dict-needed-but-missing", kind: RK{Kind: "zlib"}, bytes: zlibStream(dictText, 6, dict20)})
-	if cfg.Thorough {
-		// a dictionary longer than the 32 KiB window, and a stream whose matches reach into it
-		d40 := dict40k()
-		pl := append(append([]byte{}, d40[100:3000]...), []byte(" and fresh text after the dictionary part")...)
-		zl = append(zl, container{name: "zlib-dict40000", kind: RK{Kind: "zlib", Dict: d40}, bytes: zlibStream(pl, 6, d40), payload: pl})
+	// a dictionary longer than the 32 KiB window: only its last 32 KiB count. The payload copies from the end of the
+	// dictionary, from just inside the window (32000 back) and from the part that is out of reach.
+	d40 := dict40k()
+	pl := append(append(append(append([]byte{}, d40[37000:39990]...), d40[8000:9000]...), d40[100:700]...), []byte(" and fresh text after the dictionary part")...)
+	zl = append(zl, container{name: "zlib-dict40000", kind: RK{Kind: "zlib", Dict: d40}, bytes: zlibStream(pl, 6, d40), payload: pl})
+	if len(zlibStream(pl, 6, d40))+100 > len(zlibStream(pl, 6, nil)) {
+		panic(mc.HarnessError{Msg: "C13: the 40000-byte dictionary case does not refer to its dictionary"})
+	}
+	// raw DEFLATE streams that need a dictionary (flate's Reset(src, dict) against NewReaderDict)
+	stdDeflateDict := func(data []byte, dict []byte) []byte {
+		var b bytes.Buffer
+		w, err := stdflate.NewWriterDict(&b, 6, dict)
+		if err != nil {
+			panic(err)
+		}
+		w.Write(data)
+		w.Close()
+		return b.Bytes()
+	}
+	secondFlateDict := []c13life{
+		{"dict20-stream", stdDeflateDict(dictText, dict20), dict20},
+		{"dict40000-stream", stdDeflateDict(pl, d40), d40},
+		{"300B-with-unneeded-dict", s300, dict20},
+		{"backref-into-dict20", backrefStreams()[0].stream, dict20},
+		{"backref-32768-into-dict40000", backrefStreams()[3].stream, d40},
+		{"backref-beyond-dict20", backrefStreams()[2].stream, dict20},
 	}
 	histories := []string{"nothing", "1 byte", "10 bytes", "all-but-last", "to-end", "65535 bytes", "65536 bytes (output window full)"}
 	pols := []env.ReadPolicy{env.PolicyAll, env.Policy7}
@@ -252,10 +275,35 @@ func c13Harness(cfg *Cfg) func(x *mc.Exec) {
 		switch kind {
 		case 0: // flate
 			f1 := firstFlate[x.Choose(len(firstFlate), "first")]
-			s2 := secondFlate[x.Choose(len(secondFlate), "second")]
+			si := x.Choose(len(secondFlate)+len(secondFlateDict), "second")
 			if strings.HasPrefix(f1.name, "fault:") && (hist != 4 || viaBufio > 1) {
 				return // the fault first lives are read to their error, second source plain or bufio
 			}
+			if si >= len(secondFlate) {
+				// second life with a preset dictionary: Reset(src, dict) against NewReaderDict(src, dict)
+				d := secondFlateDict[si-len(secondFlate)]
+				var r io.Reader
+				if pi := Guard(func() {
+					first = newC13first(f1.stream, fmode)
+					r = fflate.NewReader(first.reader())
+					firstRead(r, hist, 70000)
+					first.snapshot()
+					r.(fflate.Resetter).Reset(mkSrc(d.stream, viaBufio), d.dict)
+				}); pi != nil {
+					x.Fail("C13 panic "+pi.Site, "flate first=%s history=%s: %s", f1.name, histories[hist], pi)
+					return
+				}
+				got := drainReader(r, pol)
+				want := drainReader(fflate.NewReaderDict(mkSrc(d.stream, viaBufio), d.dict), pol)
+				x.Note(got.FP)
+				desc := fmt.Sprintf("flate first=%s history=%s second=%s (dictionary of %d bytes) policy=%s bufio=%d", f1.name, histories[hist], d.name, len(d.dict), pol.Name, viaBufio)
+				if !checkFirst("flate", desc) {
+					return
+				}
+				c13compare(x, "flate-dict", desc, histories[hist], got, want)
+				return
+			}
+			s2 := secondFlate[si]
 			var r io.Reader
 			if pi := Guard(func() {
 				first = newC13first(f1.stream, fmode)
